@@ -605,6 +605,13 @@ class Executor:
                 outs.append((s, Signal.NORMAL, None))
             return outs
         if isinstance(node, ast.AugAssign):
+            if isinstance(node.target, ast.Name) and hasattr(st.vars.get(node.target.id), "pyvc_iop"):
+                # an object with in-place semantics of its own (an array that keeps its dtype under  x /= y)
+                outs = []
+                for s, rhs in self.eval(node.value, st):
+                    s.vars[node.target.id] = s.vars[node.target.id].pyvc_iop(self, s, node.op, rhs, node)
+                    outs.append((s, Signal.NORMAL, None))
+                return outs
             bin_ = ast.BinOp(left=ast_load(node.target), op=node.op, right=node.value)
             ast.copy_location(bin_, node)
             outs = []
